@@ -8,6 +8,7 @@ import DeapModel.Lemmas.C20Real
 import DeapModel.Lemmas.C20Front
 import DeapModel.Core.MovingPeaks
 import DeapModel.Core.BenchBinary
+import DeapModel.Core.BenchTools
 import Mathlib.Analysis.SpecialFunctions.Sqrt
 import Mathlib.Analysis.SpecialFunctions.Pow.Real
 import Mathlib.Analysis.SpecialFunctions.Pow.NNReal
@@ -16,6 +17,7 @@ import Mathlib.Tactic.FieldSimp
 import Mathlib.Tactic.NormNum
 import Mathlib.Tactic.Push
 import Mathlib.Tactic.FailIfNoProgress
+import Mathlib.Tactic.Linarith
 
 set_option linter.unusedSimpArgs false
 set_option linter.unusedVariables false
@@ -412,6 +414,285 @@ theorem mapM_range_getElem2 {β β' γ : Type} (c : List β) (a : List β') (F :
       · have : ¬ (a'.length + 1 < c'.length + 1) := by omega
         simp only [hl, this, if_false]
 
+end GenL
+
+
+/-! ### round 8: the binary benchmarks (bit lists, stepped ranges, binary numerals, `while`) -/
+namespace GenL
+
+/-- the Python int of a model bit -/
+def bit (v : Bool) : ℤ := if v then 1 else 0
+
+theorem bits_eq_map (b : List Bool) : bits b = b.map bit := rfl
+
+theorem bit_eq_zero (v : Bool) : (bit v = 0) = (v = false) := by cases v <;> simp [bit]
+theorem bit_eq_one (v : Bool) : (bit v = 1) = (v = true) := by cases v <;> simp [bit]
+
+theorem bits_take (b : List Bool) (n : ℕ) : (bits b).take n = bits (b.take n) := by simp [bits]
+theorem bits_drop (b : List Bool) (n : ℕ) : (bits b).drop n = bits (b.drop n) := by simp [bits]
+theorem bits_append (a b : List Bool) : bits a ++ bits b = bits (a ++ b) := by simp [bits]
+
+theorem index_bits_neg_one (b : List Bool) : Gen.index (bits b) (-1) = b.getLast?.map bit := by
+  rcases List.eq_nil_or_concat b with rfl | ⟨t, a, rfl⟩
+  · simp [Gen.index, bits]
+  · simp [Gen.index, bits, bit]
+
+theorem index_bits_neg_two (b : List Bool) :
+    Gen.index (bits b) (-2) = if b.length < 2 then none else some (bit (b.getD (b.length - 2) false)) := by
+  by_cases h : b.length < 2
+  · simp only [h, if_true, Gen.index, length_bits]
+    have : (-2 : ℤ) + (b.length : ℤ) < 0 := by omega
+    simp [this]
+  · simp only [h, if_false, Gen.index, length_bits]
+    have h1 : ¬ ((-2 : ℤ) + (b.length : ℤ) < 0) := by omega
+    have h2 : ((-2 : ℤ) + (b.length : ℤ)).toNat = b.length - 2 := by omega
+    have h3 : b.length - 2 < b.length := by omega
+    simp [h1, h2, bits, bit, h3]
+
+theorem getLast?_eq_getD (b : List Bool) (h : ¬ b.length < 2) : b.getLast? = some (b.getD (b.length - 1) false) := by
+  have h3 : b.length - 1 < b.length := by omega
+  simp [List.getLast?_eq_getElem?, h3]
+
+theorem slice_bits_gen (b : List Bool) (i w : ℕ) (lo hi : ℤ) (hlo : lo = i) (hhi : hi = i + w) :
+    Gen.slice (bits b) (some lo) (some hi) = bits (BenchBin.slice b i w) := by
+  subst hlo
+  have : hi = ((i + w : ℕ) : ℤ) := by rw [hhi]; push_cast; rfl
+  rw [this, slice_take_drop, List.drop_take, BenchBin.slice, bits_drop, bits_take]
+  simp
+
+theorem slice_bits_4 (b : List Bool) (i : ℕ) :
+    Gen.slice (bits b) (some (i : ℤ)) (some ((i : ℤ) + 4)) = bits (BenchBin.slice b i 4) :=
+  slice_bits_gen b i 4 _ _ rfl (by norm_num)
+
+theorem slice_bits_4_8 (b : List Bool) (i : ℕ) :
+    Gen.slice (bits b) (some ((i : ℤ) + 4)) (some ((i : ℤ) + 8)) = bits (BenchBin.slice b (i + 4) 4) :=
+  slice_bits_gen b (i + 4) 4 _ _ (by push_cast; rfl) (by push_cast; ring)
+
+theorem slice_bits_neg_two (b : List Bool) : Gen.slice (bits b) (some (-2)) none = bits (b.drop (b.length - 2)) := by
+  simp only [Gen.slice, Gen.bound, length_bits]
+  have : ((-2 : ℤ) + (b.length : ℤ)).toNat = b.length - 2 := by omega
+  have h2 : List.take b.length (bits b) = bits b := by rw [← length_bits b, List.take_length]
+  simp [this, h2, bits_drop]
+
+theorem rangeStep_natCast (a n c k : ℕ) (hk : 0 < k) :
+    Gen.rangeStep (a : ℤ) ((n : ℤ) - (c : ℤ)) k = (BenchBin.rangeStep a (n - c) k).map fun (m : ℕ) => (m : ℤ) := by
+  simp only [Gen.rangeStep, BenchBin.rangeStep, List.map_map]
+  have hN : (((n : ℤ) - (c : ℤ) - (a : ℤ) + ((k : ℤ) - 1)) / (k : ℤ)).toNat = (n - c - a + k - 1) / k := by
+    by_cases h : a + c ≤ n
+    · have : (n : ℤ) - (c : ℤ) - (a : ℤ) + ((k : ℤ) - 1) = ((n - c - a + k - 1 : ℕ) : ℤ) := by omega
+      rw [this, ← Int.natCast_ediv, Int.toNat_natCast]
+    · have h0 : (n - c - a + k - 1) / k = 0 := by
+        apply Nat.div_eq_of_lt; omega
+      rw [h0]
+      have : ((n : ℤ) - (c : ℤ) - (a : ℤ) + ((k : ℤ) - 1)) / (k : ℤ) ≤ 0 := by
+        have hlt : (n : ℤ) - (c : ℤ) - (a : ℤ) + ((k : ℤ) - 1) < (k : ℤ) := by omega
+        have := Int.ediv_lt_of_lt_mul (by exact_mod_cast hk : (0 : ℤ) < k) (by linarith : (n : ℤ) - (c : ℤ) - (a : ℤ) + ((k : ℤ) - 1) < 1 * (k : ℤ))
+        omega
+      omega
+  rw [hN]
+  apply List.map_congr_left
+  intro j _
+  simp
+
+theorem foldl_add_eq (f : ℤ → ℤ) (l : List ℤ) (a : ℤ) :
+    List.foldl (fun acc p => acc + f p) a l = List.foldl (· + ·) a (l.map f) := by
+  rw [List.foldl_map]
+
+/-- the inlined `trap` / `inv_trap` on a bit list -/
+theorem trap_bits (c : List Bool) :
+    (if Gen.isum (bits c) = ((bits c).length : ℤ) then ((bits c).length : ℤ)
+      else ((bits c).length : ℤ) - 1 - Gen.isum (bits c)) = BenchBin.trap c := by
+  simp only [isum_bits, length_bits, BenchBin.trap, Nat.cast_inj]
+
+theorem invTrap_bits (c : List Bool) :
+    (if Gen.isum (bits c) = 0 then ((bits c).length : ℤ) else Gen.isum (bits c) - 1) = BenchBin.invTrap c := by
+  simp only [isum_bits, length_bits, BenchBin.invTrap, Nat.cast_eq_zero]
+
+/-- the same, after `isum_bits` / `length_bits` have fired -/
+theorem trap_cast (c : List Bool) :
+    (if (BenchBin.ones c : ℤ) = (c.length : ℤ) then (c.length : ℤ) else (c.length : ℤ) - 1 - (BenchBin.ones c : ℤ))
+      = BenchBin.trap c := by
+  simp only [BenchBin.trap, Nat.cast_inj]
+
+theorem invTrap_cast (c : List Bool) :
+    (if (BenchBin.ones c : ℤ) = 0 then (c.length : ℤ) else (BenchBin.ones c : ℤ) - 1) = BenchBin.invTrap c := by
+  simp only [BenchBin.invTrap, Nat.cast_eq_zero]
+
+end GenL
+
+namespace GenL
+
+theorem fdiv_natCast (a b : ℕ) : Int.fdiv (a : ℤ) (b : ℤ) = ((a / b : ℕ) : ℤ) := by
+  rw [Int.fdiv_eq_ediv_of_nonneg _ (by omega)]; simp
+
+theorem ipowInt_natCast (a : ℤ) (n : ℕ) : Gen.ipowInt a (n : ℤ) = some (a ^ n) := by
+  simp [Gen.ipowInt]
+
+theorem two_pow_sub_one (n : ℕ) : (2 : ℤ) ^ n - 1 = ((2 ^ n - 1 : ℕ) : ℤ) := by
+  have : 1 ≤ 2 ^ n := Nat.one_le_two_pow
+  rw [Nat.cast_sub this]; simp
+
+theorem two_pow_sub_one_ne (n : ℕ) (h : n ≠ 0) : ((2 ^ n - 1 : ℕ) : ℤ) ≠ 0 := by
+  have : 2 ≤ 2 ^ n := by
+    calc 2 = 2 ^ 1 := rfl
+      _ ≤ 2 ^ n := Nat.pow_le_pow_right (by norm_num) (by omega)
+  omega
+
+theorem binVal_cast (c : List Bool) (a : ℕ) :
+    List.foldl (fun (acc : ℤ) (v : Bool) => 2 * acc + if v = true then 1 else 0) (a : ℤ) c
+      = ((List.foldl (fun acc bit => 2 * acc + bit.toNat) a c : ℕ) : ℤ) := by
+  induction c generalizing a with
+  | nil => rfl
+  | cons v t ih =>
+    simp only [List.foldl_cons]
+    have e : (2 * (a : ℤ) + if v = true then 1 else 0) = ((2 * a + v.toNat : ℕ) : ℤ) := by cases v <;> simp
+    rw [e]
+    exact ih _
+
+theorem binNumeral_bits (c : List Bool) (h : c ≠ []) : Gen.binNumeral (bits c) = some (BenchBin.binVal c : ℤ) := by
+  have h1 : (bits c).isEmpty = false := by cases c <;> simp_all [bits]
+  have h2 : (bits c).all (fun d => d == 0 || d == 1) = true := by
+    rw [List.all_eq_true]; intro x hx
+    simp only [bits, List.mem_map] at hx
+    obtain ⟨v, _, rfl⟩ := hx
+    cases v <;> simp
+  simp only [Gen.binNumeral, h1, h2, if_true, Bool.false_eq_true, if_false]
+  simp only [BenchBin.binVal, bits, List.foldl_map]
+  congr 1
+  simpa using binVal_cast c 0
+
+theorem foldlM_nat (f : ℤ → ℤ → Option ℤ) (h : ℕ → ℕ) (l : List ℕ)
+    (hf : ∀ i ∈ l, ∀ acc, f acc (i : ℤ) = some (acc + (h i : ℤ))) (a : ℕ) :
+    List.foldlM f (a : ℤ) (l.map Int.ofNat) = some (((l.map h).foldl (· + ·) a : ℕ) : ℤ) := by
+  induction l generalizing a with
+  | nil => rfl
+  | cons i t ih =>
+    simp only [List.map_cons, List.foldlM_cons, List.foldl_cons]
+    have := hf i (by simp) (a : ℤ)
+    simp only [Int.ofNat_eq_natCast] at this ⊢
+    rw [this]
+    simp only [Option.bind_eq_bind, Option.bind_some]
+    have e : (a : ℤ) + (h i : ℤ) = ((a + h i : ℕ) : ℤ) := by push_cast; rfl
+    rw [e]
+    exact ih (fun j hj => hf j (by simp [hj])) _
+
+theorem foldlM_nat0 (f : ℤ → ℤ → Option ℤ) (h : ℕ → ℕ) (l : List ℕ)
+    (hf : ∀ i ∈ l, ∀ acc, f acc (i : ℤ) = some (acc + (h i : ℤ))) :
+    List.foldlM f 0 (l.map Int.ofNat) = some (((l.map h).foldl (· + ·) 0 : ℕ) : ℤ) := by
+  simpa using foldlM_nat f h l hf 0
+
+theorem slice_length (b : List Bool) (i order : ℕ) (hi : i < b.length / order) :
+    (BenchBin.slice b (i * order) order).length = order := by
+  have ho : 0 < order := by
+    rcases Nat.eq_zero_or_pos order with rfl | h
+    · simp at hi
+    · exact h
+  have : (i + 1) * order ≤ b.length := (Nat.le_div_iff_mul_le ho).1 hi
+  simp only [BenchBin.slice, List.length_take, List.length_drop]
+  have : i * order + order ≤ b.length := by rw [← Nat.succ_mul]; exact this
+  omega
+
+end GenL
+
+namespace GenL
+
+theorem rr2_loop (b : List Bool) (order : ℕ) (cond : ℤ × ℤ → Bool) (body : ℤ × ℤ → Option (ℤ × ℤ))
+    (hc : ∀ (n t : ℕ), cond ((n : ℤ), (t : ℤ)) = decide (n < order * order))
+    (hb : ∀ (n t : ℕ), body ((n : ℤ), (t : ℤ)) =
+      (BenchBin.royalRoad1 b n).map fun (v : ℕ) => (((n * 2 : ℕ) : ℤ), ((t + v : ℕ) : ℤ)))
+    (fuel : ℕ) : ∀ (fuel' n t : ℕ), (1 ≤ n ∨ order * order ≤ n) → order * order < n + fuel → order * order < n + fuel' →
+      (Gen.whileLoop cond body fuel ((n : ℤ), (t : ℤ))).map Prod.snd
+        = (BenchBin.royalRoad2Loop b order fuel' n t).map fun (v : ℕ) => (v : ℤ) := by
+  induction fuel with
+  | zero =>
+    intro fuel' n t _ h2 _
+    have hlt : ¬ n < order * order := by omega
+    cases fuel' <;> simp [Gen.whileLoop, BenchBin.royalRoad2Loop, hc, hlt]
+  | succ fuel ih =>
+    intro fuel' n t h1 h2 h3
+    by_cases hlt : n < order * order
+    · obtain ⟨f'', rfl⟩ : ∃ f'', fuel' = f'' + 1 := ⟨fuel' - 1, by omega⟩
+      simp only [Gen.whileLoop, BenchBin.royalRoad2Loop, hc, hlt, decide_true, if_true, hb]
+      cases hv : BenchBin.royalRoad1 b n with
+      | none => rfl
+      | some v =>
+        simp only [Option.map_some, Option.bind_some]
+        exact ih f'' (n * 2) (t + v) (by omega) (by omega) (by omega)
+    · cases fuel' <;> simp [Gen.whileLoop, BenchBin.royalRoad2Loop, hc, hlt]
+
+/-- the shape of the regenerated `royal_road2`: any fuel ≥ order² + 1 suffices -/
+theorem rr2_main (b : List Bool) (order : ℕ) (cond : ℤ × ℤ → Bool) (body : ℤ × ℤ → Option (ℤ × ℤ)) (fuel : ℕ)
+    (hfuel : order * order + 1 ≤ fuel)
+    (hc : ∀ (n t : ℕ), cond ((n : ℤ), (t : ℤ)) = decide (n < order * order))
+    (hb : ∀ (n t : ℕ), body ((n : ℤ), (t : ℤ)) =
+      (BenchBin.royalRoad1 b n).map fun (v : ℕ) => (((n * 2 : ℕ) : ℤ), ((t + v : ℕ) : ℤ))) :
+    (Option.bind (Gen.whileLoop cond body fuel ((order : ℤ), (0 : ℤ))) fun w => some [w.2])
+      = (BenchBin.royalRoad2 b order).map fun (v : ℕ) => [(v : ℤ)] := by
+  have h1 : (1 ≤ order ∨ order * order ≤ order) := by
+    rcases Nat.eq_zero_or_pos order with rfl | h
+    · right; simp
+    · left; exact h
+  have := rr2_loop b order cond body hc hb fuel (order * order + 1) order 0 h1 (by omega) (by omega)
+  simp only [Nat.cast_zero] at this
+  rw [BenchBin.royalRoad2]
+  cases hw : Gen.whileLoop cond body fuel ((order : ℤ), (0 : ℤ)) with
+  | none => rw [hw] at this; cases hm : BenchBin.royalRoad2Loop b order (order * order + 1) order 0 <;> simp_all
+  | some w => rw [hw] at this; cases hm : BenchBin.royalRoad2Loop b order (order * order + 1) order 0 <;> simp_all
+
+end GenL
+
+namespace GenL
+
+theorem listMul_singleton {β : Type} (z : β) (n : ℕ) : Gen.listMul [z] (n : ℤ) = List.replicate n z := by
+  simp only [Gen.listMul, Int.toNat_natCast]
+  induction n with
+  | zero => rfl
+  | succ k ih => simp [List.replicate_succ, ih]
+
+theorem setItem_natCast {β : Type} (l : List β) (i : ℕ) (v : β) (h : i < l.length) :
+    Gen.setItem l (i : ℤ) v = some (l.set i v) := by
+  have : ¬ ((i : ℤ) < 0) := by omega
+  simp [Gen.setItem, this, h]
+
+/-- the decoding loop `for i in range(n): dec[i] = g i` on a list of length `n` builds `[g 0, …, g (n-1)]` -/
+theorem foldlM_setItem {β : Type} (n : ℕ) (f : List β → ℤ → Option (List β)) (g : ℕ → β) (z : β)
+    (hf : ∀ i, i < n → ∀ l : List β, l.length = n → f l (i : ℤ) = some (l.set i (g i))) :
+    List.foldlM f (List.replicate n z) ((List.range n).map Int.ofNat) = some ((List.range n).map g) := by
+  have key : ∀ k, k ≤ n → List.foldlM f (List.replicate n z) ((List.range k).map Int.ofNat)
+      = some ((List.range k).map g ++ List.replicate (n - k) z) := by
+    intro k
+    induction k with
+    | zero => intro _; simp
+    | succ k ih =>
+      intro hk
+      rw [List.range_succ, List.map_append, List.foldlM_append, ih (by omega)]
+      simp only [List.map_cons, List.map_nil, List.foldlM_cons, List.foldlM_nil, Option.bind_eq_bind, Option.bind_some,
+        Int.ofNat_eq_natCast]
+      rw [hf k (by omega) _ (by simp; omega)]
+      simp only [Option.bind_some, Option.pure_def, Option.some.injEq]
+      have e : n - k = (n - (k + 1)) + 1 := by omega
+      rw [e, List.replicate_succ, List.set_append_right _ _ (by simp)]
+      simp [List.range_succ]
+  simpa using key n (le_refl n)
+
+end GenL
+
+namespace GenL
+theorem mapM_guard_some {β γ : Type} (c : β → Prop) [DecidablePred c] (g : β → γ) (l : List β) (r : List γ)
+    (h : l.mapM (fun f => if c f then some (g f) else none) = some r) : r = l.map g := by
+  induction l generalizing r with
+  | nil => simp at h; simp [← h]
+  | cons a t ih =>
+    rw [List.mapM_cons] at h
+    by_cases ha : c a
+    · simp only [ha, if_true, Option.pure_def, Option.bind_eq_bind, Option.bind_some] at h
+      cases ht : List.mapM (fun f => if c f then some (g f) else none) t with
+      | none => rw [ht] at h; simp at h
+      | some r' =>
+        rw [ht] at h
+        simp only [Option.bind_some, Option.some.injEq] at h
+        rw [← h, ih r' ht]; rfl
+    · simp [ha] at h
 end GenL
 
 /-- guards on list lengths, `enumerate` (before the lists are evaluated) -/
